@@ -454,12 +454,18 @@ impl ContinuityStore {
         let stream_cache = ContinuityStreamCache::new(&data_dir);
         // Continuity appends are serialized, so after a crash only the last continuity frame of
         // the log can be missing from the caches.
-        stream_cache.reconcile_after_restart(
+        for continuity_id in stream_cache.reconcile_after_restart(
             event_log
                 .last_frame_of_kind(StreamKind::Continuity)
                 .ok()
                 .flatten(),
-        );
+        ) {
+            if let Ok(events) = event_log.replay_stream(StreamKind::Continuity, &continuity_id) {
+                if !events.is_empty() {
+                    stream_cache.rebuild_best_effort(&continuity_id, &events);
+                }
+            }
+        }
         Ok(Self {
             data_dir,
             workspace_root,
